@@ -42,7 +42,11 @@ struct Core {
     std::tuple<size_t, size_t, double> step(size_t s, size_t a) const {
         size_t b = base(s), t = time(s);
         size_t b1, o; double r;
-        if (term[b]) { b1 = b; o = 0; r = termR; if (recording) ++fromTerminal; }
+        if (term[b]) {
+            b1 = b; o = 0; r = termR;
+            // a call made on the terminal state the previous call just returned: the simulation ran past a terminal state
+            if (recording && !log.empty() && log.back().s1 == s) ++fromTerminal;
+        }
         else {
             const auto & os = out[b][a < out[b].size() ? a : 0];
             unsigned tot = 0; for (auto & x : os) tot += x.w;
@@ -233,6 +237,12 @@ static void episode(Core & c, int kind, Rng & rng, const std::vector<CallPlan> &
         } else {
             Line hz; hz << "C19" << "hzp" << kind << h << it << (size_t)c.log.size();
             extra.push_back(hz.os.str());
+        }
+        // no simulation continues after the model reported a terminal state (decidable from the log alone only when
+        // the state ids carry the time: a root particle may itself be terminal and equal to the previous outcome)
+        if (c.layered && !mixed && c.clamped == 0) {
+            Line tr; tr << "C19" << "trm" << kind << (size_t)c.log.size() << (size_t)c.fromTerminal;
+            extra.push_back(tr.os.str());
         }
         if (kind == 3) {   // literal count clause on every rPOMCP node
             Line rc; rc << "C19" << "rcnt" << (size_t)g_rcnt.size(); for (auto & x : g_rcnt) rc << x.first << x.second;
